@@ -19,6 +19,7 @@ pub mod c11;
 pub mod c12;
 pub mod c15;
 pub mod c16;
+pub mod c18;
 pub mod c19;
 pub mod common;
 
@@ -45,6 +46,7 @@ fn build(ctx: &Ctx) -> Option<Check> {
         "C12" => c12::check(ctx),
         "C15" => c15::check(ctx),
         "C16" => c16::check(ctx),
+        "C18" => c18::check(ctx),
         "C19" => c19::check(ctx),
         _ => return None,
     })
